@@ -22,12 +22,15 @@ from .machine import NULL, UNINIT, Machine, Ptr, TensorStruct
 
 # --------------------------------------------------------------------------- parsing helpers
 def parse_case(case):
-    """-> (Assignment, {name: Format}) using tensora's own parsers (needed to build a Problem)."""
+    """-> (Assignment, {name: Format}) using tensora's own parsers (needed to build a Problem).
+    Formats are put in canonical order (target first, then order of appearance) whatever the order in the
+    case dict, because replay files are written with sorted keys."""
     from tensora.expression import parse_assignment
     from tensora.format import parse_format
 
     asg = parse_assignment(case["assignment"]).unwrap()
-    fmts = {n: parse_format(f).unwrap() for n, f in case["formats"].items()}
+    names = list(asg.variable_orders().keys())
+    fmts = {n: parse_format(case["formats"][n]).unwrap() for n in names}
     return asg, fmts
 
 
@@ -186,7 +189,7 @@ def output_blocks(st):
     return out
 
 
-def decode_struct(st, strict=True):
+def decode_struct(st, strict=True, structure_only=False):
     """Validity oracle of C02 on the machine heap + decoding.
 
     Returns (errors, stored {coord: float}, arrays [None | (pos, crd)] per level, nnz).
@@ -264,6 +267,8 @@ def decode_struct(st, strict=True):
                 errs.append(("crd-out-of-range", l, seg, d))
         arrays.append((pos, crd))
         n = nn
+    if structure_only:
+        return errs, None, arrays, n
     vp = st.fields["vals"]
     if vp.block is None:
         if n != 0:
